@@ -113,7 +113,7 @@ def csr_rows(specs, bits, dtype, order=None, zeros=False, rng=None):
 @fpheap.with_heap_cases(("metric",), 60, 1500)
 class C06(vlib.Check):
     id = "C06"
-    props_modules = ["E3fpVerif.Props.C06", "E3fpVerif.Props.C06Real"]
+    props_modules = ["E3fpVerif.Props.C06", "E3fpVerif.Props.C06Real", "E3fpVerif.Props.C06Csr"]
     gen_items = ["metrics"]
     rule = ("pairs of fingerprints of all kinds (empty, identical, subset, disjoint, random; bits 8..2^32 for the fingerprint "
             "forms, <= 4096 for the matrix forms) x five measures x sixteen calling forms (metrics.* with fp/fp, fp/db, db/fp, "
@@ -231,6 +231,22 @@ class C06(vlib.Check):
             self.count("whole-matrix")
             yield {"t": "matrix", "kind": kind, "bits": bits, "xs": xs, "ys": ys, "seed": rng.randrange(10 ** 6),
                    "a": xs[0], "b": ys[0], "m": "tanimoto", "form": "matrix"}
+        # the sparse Soergel kernel called on raw CSR arrays (data / indices / indptr), the index-walking loop that Model/Csr.lean
+        # mirrors statement by statement: several rows, empty rows anywhere, jitted and plain-Python versions
+        for _ in range(25 if self.tier == "quick" else 400):
+            bits = rng.choice([8, 64, 1024])
+            def csr(nrows):
+                data, indices, indptr = [], [], [0]
+                for _r in range(nrows):
+                    cols = sorted(rng.sample(range(bits), rng.choice([0, 0, 1, 2, 3, 5]) if bits > 5 else 0))
+                    for c in cols:
+                        indices.append(c)
+                        data.append(rng.choice(["1", "2", "3", "1/2", "5/4", "7"]))
+                    indptr.append(len(indices))
+                return {"data": data, "indices": indices, "indptr": indptr}
+            self.count("csr-kernel")
+            yield {"t": "csr", "bits": bits, "X": csr(rng.randint(1, 5)), "Y": csr(rng.randint(1, 5)), "nojit": rng.random() < 0.5,
+                   "a": {"idx": [1]}, "b": {"idx": [1]}, "m": "soergel", "form": "csr"}
         # large unfolded fingerprints: fingerprint forms only
         for _ in range(n // 3):
             ka = rng.choice(KINDS)
@@ -398,7 +414,20 @@ class C06(vlib.Check):
                                         [k for k, f in enumerate(xs) if not f["idx"]], [k for k, f in enumerate(ys) if not f["idx"]])}
         return None
 
+    def _csr_call(self, case):
+        def arrs(m):
+            return (np.array([float(Fraction(v)) for v in m["data"]], dtype=np.float64), np.array(m["indices"], dtype=np.int32),
+                    np.array(m["indptr"], dtype=np.int32))
+        xd, xi, xp = arrs(case["X"])
+        yd, yi, yp = arrs(case["Y"])
+        S = np.zeros((len(xp) - 1, len(yp) - 1), dtype=np.float64)
+        f = getattr(AM._sparse_soergel, "py_func", AM._sparse_soergel) if case["nojit"] else AM._sparse_soergel
+        f(xd, xi, xp, yd, yi, yp, S)
+        return [[float(v) for v in row] for row in S.tolist()]
+
     def impl(self, case):
+        if case["t"] == "csr":
+            return attempt(lambda: self._csr_call(case))
         if case["t"] == "matrix":
             return {"ok": "see prop"}
         if case["t"] == "mismatch":
@@ -409,6 +438,8 @@ class C06(vlib.Check):
         return r
 
     def model_ops(self, case):
+        if case["t"] == "csr":
+            return [{"op": "met.csr_soergel", "X": case["X"], "Y": case["Y"]}]
         if case["t"] == "matrix":
             return [{"op": "fpr.hash", "words": []}]
         a, b, m, form = case["a"], case["b"], case["m"], case["form"]
@@ -465,6 +496,9 @@ class C06(vlib.Check):
         return [{"op": "met.arr", "m": m, "x": ra, "y": rb, "bits": a["bits"], "dense": form in ("dense", "dense-nojit")}]
 
     def model_answer(self, case, answers):
+        if case["t"] == "csr":
+            a = answers[0]
+            return {"ok": [[float(Fraction(v)) for v in row] for row in a["ok"]]} if "ok" in a else a
         if case["t"] == "matrix":
             return {"ok": "see prop"}
         if case["t"] == "mismatch":
@@ -480,6 +514,11 @@ class C06(vlib.Check):
         return a
 
     def compare(self, case, a_impl, a_model):
+        if case["t"] == "csr":
+            if "ok" in a_impl and "ok" in a_model and len(a_impl["ok"]) == len(a_model["ok"]) and all(
+                    len(r1) == len(r2) and all(close(x, y, 1e-12) for x, y in zip(r1, r2)) for r1, r2 in zip(a_impl["ok"], a_model["ok"])):
+                return None
+            return {"impl": a_impl, "model": a_model}
         if case["t"] == "matrix":
             return None
         if case["t"] == "mismatch":
@@ -497,6 +536,22 @@ class C06(vlib.Check):
 
     # ------------------------------------------------------------------ the property
     def prop(self, case):
+        if case["t"] == "csr":
+            # the definition on the rows the arrays denote
+            def rows(m):
+                return [{c: Fraction(v) for c, v in zip(m["indices"][m["indptr"][i]:m["indptr"][i + 1]], m["data"][m["indptr"][i]:m["indptr"][i + 1]])}
+                        for i in range(len(m["indptr"]) - 1)]
+            try:
+                S = self._csr_call(case)
+            except Exception as e:  # noqa: BLE001
+                return {"key": "metric-raises:soergel:csr-kernel:" + type(e).__name__, "what": "_sparse_soergel raised %r" % e}
+            for i, x in enumerate(rows(case["X"])):
+                for j, y in enumerate(rows(case["Y"])):
+                    want = definition("soergel", x, y, case["bits"])
+                    if not close(S[i][j], want):
+                        return {"key": "metric-wrong:soergel:csr-kernel", "what": "_sparse_soergel entry (%d, %d) is %r, the definition gives %r (indptr %s / %s)" % (
+                            i, j, S[i][j], float(want), case["X"]["indptr"], case["Y"]["indptr"])}
+            return None
         if case["t"] == "matrix":
             return self._matrix_prop(case)
         a, b, m, form = case["a"], case["b"], case["m"], case["form"]
@@ -535,7 +590,7 @@ class C06(vlib.Check):
         return None
 
     def nontrivial(self, case, a_impl):
-        if case["t"] == "matrix":
+        if case["t"] in ("matrix", "csr"):
             return vlib.canon(case)
         if case["t"] != "metric" or not case["a"]["idx"] or not case["b"]["idx"] or case["a"] == case["b"]:
             return None
